@@ -152,6 +152,7 @@ type planItem struct {
 	q      quorumCase
 	srcIdx int
 	pi, qi int
+	rich   bool // Boldyreva quick tier: this run compares two aggregators and a qualified sub-collection
 }
 
 func rotatedPolicies(shift int) []namedPolicy {
@@ -178,17 +179,17 @@ func planCheap(shift int, quickSrcs []int) []planItem {
 			}
 			for _, src := range srcs {
 				for qi, q := range quorumCases(np, -1, 0, lim(2, 99), rot) {
-					out = append(out, planItem{np, q, src, pi, qi + src})
+					out = append(out, planItem{np: np, q: q, srcIdx: src, pi: pi, qi: qi + src, rich: true})
 				}
 			}
 			continue
 		}
-		for qi, q := range quorumCases(np, lim(2, 10), lim(1, 2), lim(3, 99), rot) {
+		for qi, q := range quorumCases(np, lim(1, 10), lim(1, 2), lim(2, 99), rot) {
 			src := pi + shift + int(seed)
 			if thor {
 				src += qi % 2
 			}
-			out = append(out, planItem{np, q, src, pi, qi})
+			out = append(out, planItem{np: np, q: q, srcIdx: src, pi: pi, qi: qi, rich: true})
 		}
 	}
 	return out
@@ -202,13 +203,19 @@ func planCostly(nWin, shift int) []planItem {
 	out := []planItem{}
 	if !thor {
 		for pi, np := range policyWindow(nWin, shift) {
-			for qi, q := range quorumCases(np, 1, 1-(pi%2), 2, pi+shift+int(seed)) {
-				out = append(out, planItem{np, q, pi + shift + int(seed), pi, qi})
+			for qi, q := range quorumCases(np, 1, 0, 2, pi+shift+int(seed)) {
+				out = append(out, planItem{np: np, q: q, srcIdx: pi + shift + int(seed), pi: pi, qi: qi})
 			}
 		}
+		// one replicated policy on a Gennaro key: a minimal quorum, an unqualified one and - for every second protocol variant,
+		// alternating with the seed - a non-minimal one (three or more signers cost three times a pair)
 		np := policyByName(replicatedPolicies[(shift+int(seed))%len(replicatedPolicies)])
-		for qi, q := range quorumCases(np, 1, 1, 1, shift+int(seed)) {
-			out = append(out, planItem{np, q, 1, nWin, qi})
+		nonMin := 1
+		if nWin == 1 && (shift+int(seed))%2 == 1 {
+			nonMin = 0
+		}
+		for qi, q := range quorumCases(np, 1, nonMin, 1, shift+int(seed)) {
+			out = append(out, planItem{np: np, q: q, srcIdx: 1, pi: nWin, qi: qi})
 		}
 		return out
 	}
@@ -218,12 +225,12 @@ func planCostly(nWin, shift int) []planItem {
 			// every qualified quorum; the key source alternates between trusted dealing and Gennaro with the protocol variant (shift)
 			src := (pi + shift + int(seed)) % 2
 			for qi, q := range quorumCases(np, -1, 0, 99, rot) {
-				out = append(out, planItem{np, q, src, pi, qi + src})
+				out = append(out, planItem{np: np, q: q, srcIdx: src, pi: pi, qi: qi + src, rich: true})
 			}
 			continue
 		}
 		for qi, q := range quorumCases(np, 2, 1, 99, rot) {
-			out = append(out, planItem{np, q, pi + shift + int(seed) + qi%2, pi, qi})
+			out = append(out, planItem{np: np, q: q, srcIdx: pi + shift + int(seed) + qi%2, pi: pi, qi: qi})
 		}
 	}
 	return out
